@@ -12,7 +12,11 @@ use std::collections::HashMap;
 use std::fmt;
 use std::fmt::{Debug, Display, Formatter};
 use std::ops::Deref;
-use std::sync::{Arc, LockResult, Mutex, MutexGuard};
+#[cfg(rfsm_verif)]
+use crate::verif::sync::{Mutex, MutexGuard};
+use std::sync::{Arc, LockResult};
+#[cfg(not(rfsm_verif))]
+use std::sync::{Mutex, MutexGuard};
 
 use crate::actions::ActionMap;
 use crate::event_io_processor::EventIOProcessor;
